@@ -117,6 +117,11 @@ class MarkCase:
     pass
 
 
+# label values: small ones, and (since `fix: keep PCF values as 64-bit`) values beyond the C int range,
+# including pairs that are equal modulo 2^32 or 2^31
+LABEL_POOL = list(range(1, 40)) + [2**31 - 1, 2**31, 2**31 + 7, 2**32 + 5, 2**32 + 7, 2**40, 2**62 + 3]
+
+
 def gen_emu_case(r, res):
     sysd = histories.small_sys(r)
     n = len(sysd.threads)
@@ -124,7 +129,7 @@ def gen_emu_case(r, res):
     truth = {}
     for t in r.sample(range(0, 100), ntypes):
         truth[t] = {"title": r.choice(["Phase", "Iter", "A b c", "x"]) + str(t), "stack": r.random() < 0.5,
-                    "labels": {v: "l%d" % v for v in r.sample(range(1, 40), r.randrange(0, 5))}}
+                    "labels": {v: "l%d" % v for v in r.sample(LABEL_POOL, r.randrange(0, 5))}}
     conflict = None
     k = r.random()
     if k < 0.25:
